@@ -384,8 +384,13 @@ def run_env_case(case, ctx, acc):
             fh.write(c02.cfg_variants()[(1, 0, 0)].replace('model_pkas ASP  3.80', 'model_pkas ASP  4.40').replace('model_pkas GLU  4.50', 'model_pkas GLU  4.10'))
         with open(os.path.join(wd2, 'x.pdb'), 'w') as fh:
             fh.write('REMARK decoy file with the name the stream runs pretend to read\n')
-    code = ('import sys, json; sys.path.insert(0, %r); from pkmc.checks import c03; from pkmc import pk; pk.quiet(); '
-            'obs = c03.execute(c03.operations(%r)[%d], %r); print("@@" + json.dumps(obs, default=str))') % (VERIF, ctx.tier, case['op'], case['mode'])
+    # logging configuration of the host process: neither content nor option
+    logcfg = {'default': '', 'propka-info': 'import logging; logging.getLogger("propka").setLevel(logging.INFO); ',
+              'propka-debug': 'import logging; logging.getLogger("propka").setLevel(logging.DEBUG); ',
+              'root-info': 'import logging; logging.getLogger().setLevel(logging.INFO); ',
+              'disabled': 'import logging; logging.disable(logging.CRITICAL); '}[case.get('log', 'default')]
+    code = ('import sys, json; sys.path.insert(0, %r); from pkmc.checks import c03; from pkmc import pk; pk.quiet(); %s'
+            'obs = c03.execute(c03.operations(%r)[%d], %r); print("@@" + json.dumps(obs, default=str))') % (VERIF, logcfg, ctx.tier, case['op'], case['mode'])
     p = subprocess.run([sys.executable, '-c', code], cwd=wd2, env=env, capture_output=True, text=True, timeout=300)
     acc.case(nontrivial_key=jhash(case), outcome='env')
     line = [ln for ln in p.stdout.splitlines() if ln.startswith('@@')]
@@ -418,13 +423,15 @@ def plan(tier, seed):
             envs.append(dict(kind='env', op=i, hashseed=2, cwd='flat', mode='textfile'))
             if 'cfg' not in op and 'cfg_edit' not in op:
                 envs.append(dict(kind='env', op=i, hashseed=0, cwd='decoy-cfg', mode='stream' if i % 2 else 'path'))
+        for lg in (('propka-info', 'disabled') if tier == 'quick' else ('propka-info', 'propka-debug', 'root-info', 'disabled')):
+            envs.append(dict(kind='env', op=i, hashseed=0, cwd='flat', mode='stream', log=lg))
     shards = [[c] for c in orders] + [envs[i:i + 2] for i in range(0, len(envs), 2)]
     return dict(shards=shards, exhaustive=True,
                 rule=('histories: BFS over %d operations (%s) from the pristine process image, state = by-value snapshot of all propka.* '
                       'globals/class attributes/logger configuration, until closure; schedules: all k! iteration orders of the coupled '
                       'groups of %d inputs (k <= 5; clusters default and -d, covalently coupled ligand/N-terminal systems under 5 '
                       'parameter toggles); environment: every operation in fresh interpreters with hash seeds %s, nested cwd + path input, '
-                      'text-file stream. non-trivial = distinct (history, operation) transitions + inputs with a coupled system + '
+                      'text-file stream, host logging configured at INFO/DEBUG or disabled. non-trivial = distinct (history, operation) transitions + inputs with a coupled system + '
                       'environment runs') % (len(ops), [o['name'] for o in ops], len(orders), '0-3' if tier == 'thorough' else '0,3'),
                 bounds=dict(operations=len(ops), max_coupled_groups_permuted=5), samples=[dict(history=['unknown-element', 'tripeptide-quiet'], op='ligand-cutout')])
 
